@@ -40,9 +40,9 @@ Section ExprInd.
     end.
 End ExprInd.
 
-Fixpoint tr_list (ext : bool) (l : list expr) : res (list plx) :=
-  match l with [] => Ok [] | a :: t => rbind (tr_expr ext a) (fun x => rbind (tr_list ext t) (fun xs => Ok (x :: xs))) end.
-Lemma tr_expr_op ext op args : tr_expr ext (EOp op args) = rbind (tr_list ext args) (impl ext op).
+Fixpoint tr_list (one : string) (ext : bool) (l : list expr) : res (list plx) :=
+  match l with [] => Ok [] | a :: t => rbind (tr_expr one ext a) (fun x => rbind (tr_list one ext t) (fun xs => Ok (x :: xs))) end.
+Lemma tr_expr_op one ext op args : tr_expr one ext (EOp op args) = rbind (tr_list one ext args) (impl one ext op).
 Proof. cbn [tr_expr]. f_equal. induction args as [|a t IH]; simpl; [reflexivity|]. rewrite IH. reflexivity. Qed.
 Lemma eval_expr_op fl cs r op args : eval_expr fl cs r (EOp op args) = scalar_op fl op (map (eval_expr fl cs r) args).
 Proof. reflexivity. Qed.
@@ -88,7 +88,7 @@ Definition nulls_ok3 (cs : list string) (r : list val) (e : expr) : Prop :=
   expr_nulls_ok is_cmp_op cs r e = true /\ expr_nulls_ok is_logic_op cs r e = true.
 
 Definition expr_agrees (e : expr) : Prop :=
-  exists x, (forall ext, tr_expr ext e = Ok x) /\
+  exists x, (forall one ext, tr_expr one ext e = Ok x) /\
             forall cs rs i, nulls_ok3 cs (nth i rs []) e -> plx_at cs rs i x = eval_expr fl_pandas cs (nth i rs []) e.
 
 Lemma nulls_ok3_args cs r op args : nulls_ok3 cs r (EOp op args) -> Forall (nulls_ok3 cs r) args.
@@ -137,23 +137,23 @@ Proof.
     destruct args as [|a [|b [|c [|d rest]]]]; cbn [List.length scalar_vocab] in V1; try discriminate.
     + (* unary *)
       inv_forall. use_agrees. split_mem V1; try discriminate.
-      * exists (PSub (lit_int 0) x). split; [intros ext; rewrite tr_expr_op; cbn [tr_list]; rewrite T; reflexivity|].
+      * exists (PSub (lit_int 0) x). split; [intros one ext; rewrite tr_expr_op; cbn [tr_list]; rewrite T; reflexivity|].
         intros cs rs i G. pose proof (nulls_ok3_args _ _ _ _ G) as GA. inv_forall.
         rewrite eval_expr_op. cbn [map plx_at lit_int]. rewrite (E cs rs i HA). apply neg_as_sub.
-      * exists (PAbs x). split; [intros ext; rewrite tr_expr_op; cbn [tr_list]; rewrite T; reflexivity|].
+      * exists (PAbs x). split; [intros one ext; rewrite tr_expr_op; cbn [tr_list]; rewrite T; reflexivity|].
         intros cs rs i G. pose proof (nulls_ok3_args _ _ _ _ G) as GA. inv_forall.
         rewrite eval_expr_op. cbn [map plx_at]. rewrite (E cs rs i HA). reflexivity.
-      * exists (PIsNull x). split; [intros ext; rewrite tr_expr_op; cbn [tr_list]; rewrite T; reflexivity|].
+      * exists (PIsNull x). split; [intros one ext; rewrite tr_expr_op; cbn [tr_list]; rewrite T; reflexivity|].
         intros cs rs i G. pose proof (nulls_ok3_args _ _ _ _ G) as GA. inv_forall.
         rewrite eval_expr_op. cbn [map plx_at]. rewrite (E cs rs i HA). reflexivity.
-      * exists (POr (POr (PIsNull x) (PIsInf x)) (PIsNan x)). split; [intros ext; rewrite tr_expr_op; cbn [tr_list]; rewrite T; reflexivity|].
+      * exists (POr (POr (PIsNull x) (PIsInf x)) (PIsNan x)). split; [intros one ext; rewrite tr_expr_op; cbn [tr_list]; rewrite T; reflexivity|].
         intros cs rs i G. pose proof (nulls_ok3_args _ _ _ _ G) as GA. inv_forall.
         rewrite eval_expr_op. cbn [map plx_at]. rewrite (E cs rs i HA). apply is_bad_as_or.
     + (* binary *)
       inv_forall. use_agrees. split_mem V1; try discriminate.
       all: match goal with
            | |- expr_agrees (EOp ?o _) =>
-               eexists; split; [intros ext; rewrite tr_expr_op; cbn [tr_list]; rewrite T, T0; cbn; reflexivity|];
+               eexists; split; [intros one ext; rewrite tr_expr_op; cbn [tr_list]; rewrite T, T0; cbn; reflexivity|];
                intros cs rs i G; pose proof (nulls_ok3_args _ _ _ _ G) as GA; inv_forall;
                rewrite eval_expr_op; cbn [map plx_at missing_if_any_missing any_null fold_left]; rewrite !(E cs rs i), !(E0 cs rs i) by assumption;
                try reflexivity;
@@ -165,7 +165,7 @@ Proof.
            end.
     + (* if_else *)
       inv_forall. use_agrees. split_mem V1; try discriminate.
-      eexists; split; [intros ext; rewrite tr_expr_op; cbn [tr_list]; rewrite T, T0, T1; cbn; reflexivity|].
+      eexists; split; [intros one ext; rewrite tr_expr_op; cbn [tr_list]; rewrite T, T0, T1; cbn; reflexivity|].
       intros cs rs i G. pose proof (nulls_ok3_args _ _ _ _ G) as GA. inv_forall.
       rewrite eval_expr_op. cbn [map plx_at]. rewrite (E cs rs i), (E0 cs rs i), (E1 cs rs i) by assumption.
       cbn [scalar_op]. unfold pl_when. cbn [truth]. destruct (is_null _); reflexivity.
